@@ -7,7 +7,7 @@ From Coq Require Import String List Arith Bool ZArith Reals Permutation Sorted.
 Import ListNotations.
 Require Import MV.Lib.Base MV.C03.Gen MV.C03.GenR MV.C03.Model MV.C03.Run MV.C03.Proofs_Simplex MV.C03.Proofs_Incidence
         MV.C03.Proofs_Incidence2 MV.C03.Proofs_Orient MV.C03.Proofs_OrientR MV.C03.Proofs_Maps MV.C03.Proofs_Ring
-        MV.C03.Proofs_Cache MV.C03.Proofs_Main.
+        MV.C03.Proofs_Cache MV.C03.Proofs_Cover MV.C03.Proofs_Closed MV.C03.Proofs_EdgeMap MV.C03.Proofs_Surface MV.C03.Proofs_Main.
 Local Open Scope nat_scope.
 
 (* FULL. Completion: every triangle of every cell is a face exactly once, every side of every face an edge exactly
@@ -149,13 +149,38 @@ Proof.
 Qed.
 Print Assumptions C03_vertex_and_face_maps_inverse.
 
-(* PARTIAL. Edge index maps: m2b_edge (keys = the border edges) and b2m_edge are mutually inverse dicts.
-   Missing: that b2m_edge is defined on EVERY edge of the surface (only tested). *)
-Theorem C03_edge_maps_inverse_partial : forall edges bedges vs be m,
-  NoDup (map key edges) -> NoDup be -> bc_edge_map edges bedges vs be = Ok m ->
-  map fst m = be /\ forall e b, dict_get m e = Some b <-> dict_get (map swap m) b = Some e.
-Proof. exact edge_maps_inverse. Qed.
-Print Assumptions C03_edge_maps_inverse_partial.
+(* FULL. _BoundaryConnectivity on any tetrahedral cell list and any duplicate-free enumeration vs of the border vertices:
+   the surface faces and the edge indirection are built without exception; m2b_edge is defined exactly on the border
+   edges, b2m_edge on EVERY edge of the surface, and the two dicts are mutually inverse. *)
+Theorem C03_edge_maps_total_and_inverse : forall cells, tet_mesh cells -> forall pos vs,
+  let bf := t_bf (tables cells) in
+  NoDup vs -> (forall f v, In f bf -> In v (face cells f) -> In v vs) ->
+  exists bfs m,
+    bc_faces cells (faces_of cells) pos (t_f2c (tables cells)) vs bf = Ok bfs
+    /\ bc_edge_map (edges_of cells) (complete_edges [] bfs) vs
+                   (boundary_edges (faces_of cells) (edges_of cells) bf) = Ok m
+    /\ map fst m = boundary_edges (faces_of cells) (edges_of cells) bf
+    /\ (forall b, b < length (complete_edges [] bfs) -> exists e, In (e, b) m)
+    /\ (forall e b, dict_get m e = Some b <-> dict_get (map swap m) b = Some e).
+Proof. exact boundary_connectivity_maps. Qed.
+Print Assumptions C03_edge_maps_total_and_inverse.
+
+(* FULL (conforming meshes). Closedness of BOTH extracted surfaces (their faces renumber the border faces through the
+   injective map m2b): every pair of distinct surface vertices lies in an even number of surface faces; and under the
+   stated guard `manifold_boundary` (a vertex pair lies in at most two border faces) every edge of the surface has
+   exactly two incident faces. *)
+Theorem C03_extracted_surfaces_closed : forall cells, tet_mesh cells -> forall pos vs sfaces,
+  let bf := t_bf (tables cells) in
+  conforming cells -> NoDup vs ->
+  (bc_faces cells (faces_of cells) pos (t_f2c (tables cells)) vs bf = Ok sfaces
+   \/ ex_faces (faces_of cells) vs bf = Ok sfaces) ->
+  (forall a1 a2 u v, b2m vs a1 = Some u -> b2m vs a2 = Some v -> a1 <> a2 ->
+     Nat.even (length (filter (fun T => subsetb [a1; a2] T) sfaces)) = true)
+  /\ (manifold_boundary cells (faces_of cells) ->
+      forall T a1 a2, In T sfaces -> In a1 T -> In a2 T -> a1 <> a2 ->
+        length (filter (fun T' => subsetb [a1; a2] T') sfaces) = 2).
+Proof. exact extracted_surfaces_closed. Qed.
+Print Assumptions C03_extracted_surfaces_closed.
 
 (* FULL (cache discipline). Whatever the order of accessor calls on a fresh object, no accessor tests an attribute
    that does not exist; guard tables regenerated from the source. Tables are pure functions of the mesh in the model. *)
@@ -165,32 +190,21 @@ Theorem C03_query_order_no_attribute_error :
 Proof. exact no_attribute_error_any_order. Qed.
 Print Assumptions C03_query_order_no_attribute_error.
 
-(* PARTIAL. Rotational order around an edge: both pivot walks terminate within the fuel |cells|+1, the cells each of
-   them keys are pairwise distinct and consecutive ones share a face containing the edge.
-   Missing (tested only): the final sort by walk keys yields rev(walk2) ++ start :: walk1 and covers all cells of the
-   edge when these are face-connected; faces interleave. *)
-Theorem C03_edge_ring_partial : forall cells, tet_mesh cells -> forall e start A B p1 p2,
-  edge cells e = [A; B] -> others (cell cells start) [A; B] = [p1; p2] -> start < length cells ->
-  let f2c := t_f2c (tables cells) in
-  let fuel := S (length cells) in
-  walk cells (faces_of cells) fuel f2c A B [start] start p1 <> Fuel
-  /\ forall cs1 fs1, walk cells (faces_of cells) fuel f2c A B [start] start p1 = Ok (cs1, fs1) ->
-     Sorted (adjacent_around cells (faces_of cells) A B) (start :: cs1) /\ NoDup (start :: cs1)
-     /\ length fs1 = S (length cs1)
-     /\ walk cells (faces_of cells) fuel f2c A B (cs1 ++ [start]) start p2 <> Fuel
-     /\ forall cs2 fs2, walk cells (faces_of cells) fuel f2c A B (cs1 ++ [start]) start p2 = Ok (cs2, fs2) ->
-        Sorted (adjacent_around cells (faces_of cells) A B) (start :: cs2) /\ NoDup (cs2 ++ start :: cs1)
-        /\ length fs2 = S (length cs2).
-Proof. exact edge_walks. Qed.
-Print Assumptions C03_edge_ring_partial.
-
-(* REFUTED (known finding edge-nonmanifold/sort-KeyError). "On every conforming tetrahedral mesh the rotational sort
-   succeeds" is false: two tetrahedra sharing only an edge; every start cell raises. *)
-Theorem C03_edge_ring_nonmanifold_refuted :
-  exists cells, tet_mesh cells /\ conforming cells /\
-    exists e, e < length (edges_of cells) /\ nth e (t_e2c (tables cells)) [] <> [] /\
-      forall start, In start (nth e (t_e2c (tables cells)) []) ->
-        sorted_edge cells (faces_of cells) (edges_of cells) (t_f2c (tables cells))
-                    (nth e (t_e2c (tables cells)) []) (nth e (t_e2f (tables cells)) []) e start = Exn.
-Proof. exact edge_ring_nonmanifold_refuted. Qed.
-Print Assumptions C03_edge_ring_nonmanifold_refuted.
+(* FULL for the cells, PARTIAL for the faces. Rotational order around an edge (_sort_edge_neighborhoods after the repair
+   e464500), for EVERY start cell the set order may pick: the sort never raises and never runs out of fuel; it returns
+   the cells / faces of the edge (permutations of the unsorted tables); when it reports "sorted" the cell list is
+   duplicate-free, contains the start, and consecutive cells share a face containing the edge; and it does report
+   "sorted" on a conforming mesh whenever the cells around the edge are connected through faces containing the edge.
+   Missing (tested only): the sorted FACE list is in rotational order too (it is proved to be the faces of the edge
+   sorted by the walk keys). *)
+Theorem C03_edge_ring : forall cells, tet_mesh cells -> forall e start,
+  e < length (edges_of cells) -> In start (nth e (t_e2c (tables cells)) []) ->
+  exists A B b cs fs,
+    edge cells e = [A; B] /\
+    sorted_edge cells (faces_of cells) (edges_of cells) (t_f2c (tables cells))
+                (nth e (t_e2c (tables cells)) []) (nth e (t_e2f (tables cells)) []) e start = Ok (b, cs, fs)
+    /\ Permutation cs (nth e (t_e2c (tables cells)) []) /\ Permutation fs (nth e (t_e2f (tables cells)) [])
+    /\ (b = true -> NoDup cs /\ Sorted (adjacent_around cells (faces_of cells) A B) cs /\ In start cs)
+    /\ (conforming cells -> link_connected cells (faces_of cells) A B (nth e (t_e2c (tables cells)) []) -> b = true).
+Proof. exact edge_ring. Qed.
+Print Assumptions C03_edge_ring.
